@@ -84,7 +84,8 @@ Definition obs_res (r : option (Z * Z * Z)) : list nat :=
 (* evaluation semantics: floating never evaluated in Coq (uninterpreted); [strict] chooses between the C++
    abstract machine (signed overflow undefined) and the compiled behaviour (wrap) *)
 Definition sem_eval (strict_ub : bool) : sem :=
-  {| fadd := fun x _ => x; fsub := fun x _ => x; feq := Z.eqb; strict := strict_ub |}.
+  {| fadd := fun x _ => x; fsub := fun x _ => x; feq := Z.eqb; strict := strict_ub;
+     faddw := fun x _ => x; fsubw := fun x _ => x |}.
 
 Definition obs_nat (b : backend) (k : kind) (T : cty) (strict_ub : bool) (cs : list call) (v0 : Z) : list nat :=
   flat_map obs_res (run_obs (impl_of b k) (fence_of b) (sem_eval strict_ub) T cs v0).
